@@ -84,3 +84,41 @@ func init() {
 		},
 	})
 }
+
+func init() {
+	register(&propDef{
+		ID: "C02",
+		Explain: "Rules on the range plugin anchored on its state (Recordsv4, the allocator, yiaddr): allocation and insertion happen only on the not-found edge of the lookup of this client's key and existing records' addresses are never overwritten (RANGE.LOOKUP-FIRST); every reply to a new client is preceded by inserting under the same key a record carrying the allocator's answer (RANGE.INSERT); allocation failure returns (nil, true) with nothing bound, persisted or answered (RANGE.EXHAUST); yiaddr is the stored binding or the address just allocated (RANGE.PROVENANCE); every reply carries option 51 built from the configured lease time (RANGE.LEASETIME); start-up re-marks every stored lease with its address as hint and refuses to start on error or mismatch (RANGE.RESTART); the whole decision is one exclusive critical section (GUARDED-BY / ATOMIC-RMW restricted to the range plugin). In-range and uniqueness of the numbers are C04/C05's allocator clauses.",
+		Trusted: trustedBase,
+		Assume:  []string{"numeric in-range and distinctness (C04/C05 + allocator arithmetic)", "sqlite durability"},
+		Run: func(c *Ctx) {
+			ruleRangeHandler(c, "C02.", map[string]bool{"C02": true})
+			ruleRangeRestart(c, "C02.RANGE.RESTART")
+			ruleGuardedBy(c, "C02.")
+			c.R.Floor("C02.RANGE.LOOKUP-FIRST", 1)
+			c.R.Floor("C02.RANGE.INSERT", 1)
+			c.R.Floor("C02.RANGE.EXHAUST", 1)
+			c.R.Floor("C02.RANGE.PROVENANCE", 1)
+			c.R.Floor("C02.RANGE.LEASETIME", 1)
+			c.R.Floor("C02.RANGE.RESTART", 1)
+			c.R.Floor("C02.GUARDED-BY", 10)
+		},
+	})
+	register(&propDef{
+		ID: "C03",
+		Explain: "Writer/reader agreement for the lease database, decided from the program's constants and SSA: the create/insert/select statements agree on columns, the key and all NOT NULL columns are written, the conflict policy replaces the row, the n-th Exec argument and n-th Scan target have the same Go type (DB.SCHEMA-AGREE); per column the writer expression and the loader's parser are an inverse pair whose domain covers everything the writer can produce — HardwareAddr.String needs a parser total on all lengths, IP.String ↔ ParseIP (DB.CODEC); the loader keys the restored map with the same canonical function of the address as the handler (DB.KEY-AGREE); loadRecords returns a nil map with every error and succeeds only after rows.Err() == nil (DB.LOAD-ALL-OR-ERROR); in the handler every new allocation and every expiry change is persisted under the client's hardware address before any reply is returned (DB.PERSIST-BEFORE-REPLY) and every stored expiry is now + lease time, the lease promised in option 51 (DB.EXPIRY).",
+		Trusted: trustedBase,
+		Assume:  []string{"sqlite type affinity of the `string` columns beyond the MAC column's one-byte case handled by the loader", "crash-atomicity of the sqlite write", "a failing saveIPAddress is logged and the reply still sent (storage faults are outside the property's quantifier)"},
+		Run: func(c *Ctx) {
+			ruleDBSchema(c, "C03.")
+			ruleRangeHandler(c, "C03.", map[string]bool{"C03": true})
+			ruleDBLoad(c, "C03.")
+			c.R.Floor("C03.DB.SCHEMA-AGREE", 5)
+			c.R.Floor("C03.DB.CODEC", 4)
+			c.R.Floor("C03.DB.PERSIST-BEFORE-REPLY", 1)
+			c.R.Floor("C03.DB.EXPIRY", 1)
+			c.R.Floor("C03.DB.LOAD-ALL-OR-ERROR", 1)
+			c.R.Floor("C03.DB.KEY-AGREE", 1)
+		},
+	})
+}
